@@ -19,6 +19,13 @@ fn sig_alg_der(alg: &str) -> Vec<u8> {
 		"ecdsa-sha256" => "300a06082a8648ce3d040302",
 		"ecdsa-sha384" => "300a06082a8648ce3d040303",
 		"ecdsa-sha512" => "300a06082a8648ce3d040304",
+		// algorithms that verifiers know and rcgen does not list
+		"rsa-sha1" => "300d06092a864886f70d0101050500",
+		"rsa-sha224" => "300d06092a864886f70d01010e0500",
+		"ecdsa-sha1" => "300906072a8648ce3d0401",
+		"ecdsa-sha224" => "300a06082a8648ce3d040301",
+		// RSASSA-PSS with SHA-256, MGF1-SHA-256, salt length 32
+		"rsa-pss-sha256" => "304106092a864886f70d01010a3034a00f300d06096086480165030402010500a11c301a06092a864886f70d010108300d06096086480165030402010500a203020120",
 		_ => "300506032b6570",
 	})
 }
@@ -29,6 +36,9 @@ fn md_of(alg: &str) -> Option<openssl::hash::MessageDigest> {
 		"rsa-sha256" | "ecdsa-sha256" => Some(MessageDigest::sha256()),
 		"rsa-sha384" | "ecdsa-sha384" => Some(MessageDigest::sha384()),
 		"rsa-sha512" | "ecdsa-sha512" => Some(MessageDigest::sha512()),
+		"rsa-sha1" | "ecdsa-sha1" => Some(MessageDigest::sha1()),
+		"rsa-sha224" | "ecdsa-sha224" => Some(MessageDigest::sha224()),
+		"rsa-pss-sha256" => Some(MessageDigest::sha256()),
 		_ => None,
 	}
 }
@@ -38,6 +48,11 @@ fn sign_raw(pkey: &PKey<Private>, alg: &str, msg: &[u8]) -> Vec<u8> {
 	match md_of(alg) {
 		Some(md) => {
 			let mut s = Signer::new(md, pkey).unwrap();
+			if alg.starts_with("rsa-pss") {
+				s.set_rsa_padding(openssl::rsa::Padding::PKCS1_PSS).unwrap();
+				s.set_rsa_pss_saltlen(openssl::sign::RsaPssSaltlen::DIGEST_LENGTH).unwrap();
+				s.set_rsa_mgf1_md(md).unwrap();
+			}
 			s.update(msg).unwrap();
 			s.sign_to_vec().unwrap()
 		},
@@ -414,6 +429,19 @@ pub fn run(out_path: &str, tier: &str) {
 		for (name, key, sigalg, spki) in odd {
 			let der = handcraft_spki(key, sigalg, &subj, &[], &spki);
 			bases.push((json!({"origin": "handcrafted", "keyType": key.ktype, "sigAlg": sigalg, "shape": name, "expectSupported": false}), der));
+		}
+		// otherName values that are not UTF8Strings (rcgen's SanType::OtherName holds text that it writes as UTF8String)
+		for (shape, tag) in [("othername-ia5-value", 0x16u8), ("othername-printable-value", 0x13), ("othername-bmp-value", 0x1e)] {
+			let val: Vec<u8> = if tag == 0x1e { b"\0u\0p\0n".to_vec() } else { b"upn".to_vec() };
+			let on = enc_tlv(0xa0, &[enc_oid("1.3.6.1.4.1.311.20.2.3"), enc_tlv(0xa0, &enc_tlv(tag, &val))].concat());
+			let san = ext("2.5.29.17", false, &enc_seq(&[on]));
+			let der = handcraft(&p256, "ecdsa-sha256", &subj, &[ext_req_attr(&[enc_seq(&[san])])]);
+			bases.push((json!({"origin": "handcrafted", "keyType": "p256", "sigAlg": "ecdsa-sha256", "shape": shape, "expectSupported": false}), der));
+		}
+		// correctly signed requests under signature algorithms that verifiers know and rcgen does not list
+		for (kinfo, sigalg) in [(&rsa, "rsa-sha1"), (&rsa, "rsa-sha224"), (&rsa, "rsa-pss-sha256"), (&p256, "ecdsa-sha1"), (&p256, "ecdsa-sha224")] {
+			let der = handcraft(kinfo, sigalg, &subj, &[]);
+			bases.push((json!({"origin": "handcrafted", "keyType": kinfo.ktype, "sigAlg": sigalg, "shape": "signature-algorithm-not-listed", "expectSupported": false}), der));
 		}
 		// 2.25.(2^64 + 5): ten base-128 digits; an implementation with 64 bit arcs must refuse it, not wrap it to 2.25.5
 		let big_oid = enc_tlv(0x06, &[0x69, 0x82, 0x80, 0x80, 0x80, 0x80, 0x80, 0x80, 0x80, 0x80, 0x05]);
